@@ -16,6 +16,7 @@ package socket
 import (
 	"context"
 	"crypto/tls"
+	"errors"
 	"io"
 	"math"
 	"net"
@@ -25,6 +26,8 @@ import (
 	"github.com/hprose/hprose-golang/v3/internal/convert"
 	"github.com/hprose/hprose-golang/v3/rpc/core"
 )
+
+var errResponseTooLarge = errors.New("hprose/rpc/socket: response too large for a frame")
 
 type Handler struct {
 	Service  *core.Service
@@ -170,6 +173,10 @@ func (h *Handler) send(ctx context.Context, conn net.Conn, queue chan data, errC
 			return
 		case response := <-queue:
 			index, body, e := response.Index, response.Body, response.Error
+			if e == nil && len(body) > maxBodyLength {
+				// see conn.Transport of the client: the frame can not declare it
+				e = errResponseTooLarge
+			}
 			if e != nil {
 				index |= math.MinInt32
 				if e == core.ErrRequestEntityTooLarge {
